@@ -84,7 +84,7 @@ def short(fn):
     return fn.split("::")[-1]
 
 
-def _verus(gen, build_dir, rlimit, extra, timeout, multiple_errors=3):
+def _verus(gen, build_dir, rlimit, extra, timeout, multiple_errors=8):
     cmd = [VERUS, gen, "--output-json", "--time", "--multiple-errors", str(multiple_errors)]
     if rlimit:
         cmd += ["--rlimit", str(rlimit)]
@@ -232,7 +232,7 @@ def run_unit(repo, tmpl_path, build_dir, twins=False, rlimit=None, extra=(), tim
         with open(gen + ".map.json", "w") as f:
             json.dump(A.linemap, f)
         try:
-            cmd, p = _verus(gen, build_dir, rlimit, extra, timeout, 0 if twins else 3)
+            cmd, p = _verus(gen, build_dir, rlimit, extra, timeout, 0 if twins else 8)
         except subprocess.TimeoutExpired:
             R.status = "undecided"
             R.reason = "verus timed out after %ds" % timeout
